@@ -326,7 +326,15 @@ ext("*|ext|ReedSolomon::reconstruct", "returns Err for too few shards, empty sha
 RQ = "fec::raptorq::RaptorQDecoder::new"
 ext("*|ext|ObjectTransmissionInformation::new",
     "raptorq asserts transfer_length <= 942574504275, symbol_size % alignment == 0 (alignment 0 divides by zero) and symbols per block <= 56403: all validated just before (fix F27)",
-    [("site_dom", RQ, r"ObjectTransmissionInformation::new$", r"56403|nb_source_symbols"), ("guard", RQ, r"symbol_alignment"), ("guard", RQ, r"942574504275|block_length")])
+    [("site_dom", RQ, r"ObjectTransmissionInformation::new$", r"^nb_source_symbols <= 56403$"),
+     ("site_dom", RQ, r"ObjectTransmissionInformation::new$", r"!^nb_source_symbols == 0$"),
+     ("site_dom", RQ, r"ObjectTransmissionInformation::new$", r"^block_length <= 942574504275$"),
+     ("site_dom", RQ, r"ObjectTransmissionInformation::new$", r"!^scheme\.symbol_alignment == 0$"),
+     ("site_dom", RQ, r"ObjectTransmissionInformation::new$", r"encoding_symbol_length % .*symbol_alignment[^=<>]*== 0$"),
+     ("site_dom", RQ, r"ObjectTransmissionInformation::new$", r"!^scheme\.sub_blocks_length == 0$"),
+     ("site_dom", RQ, r"ObjectTransmissionInformation::new$", r"sub_blocks_length[^<=]*<= \(?encoding_symbol_length / .*symbol_alignment"),
+     ("site_dom", RQ, r"ObjectTransmissionInformation::new$", r"^encoding_symbol_length <= \(?65535"),
+     ("site_dom", RQ, r"ObjectTransmissionInformation::new$", r"!^encoding_symbol_length == 0$")])
 ext("*|ext|SourceBlockDecoder::new", "raptorq: allocates K slots, K <= 56403 validated (fix F27). raptor_code: see the known finding F9 for the Raptor arm (keyed separately)")
 ext("*|ext|PayloadId::new", "raptorq asserts ESI < 2^24: the RaptorQ payload id reader masks ESI to 24 bits (C06.R2: ESI = wire bits 8..31)")
 ext("*|ext|EncodingPacket::new", "constructor")
